@@ -299,6 +299,36 @@ Proof.
   - right. eauto.
 Qed.
 
+(* ROW on the rendering of a table row gives its cells *)
+Lemma tsv_row_scan : forall st vars r,
+  vars <> [] -> (forall v, In v vars -> cell_ok st (cell v r)) ->
+  scan_row (S (List.length (render_row st vars r))) (render_row st vars r) = Some (map (fun v => cell v r) vars).
+Proof.
+  intros st vars r Hne Hok.
+  unfold render_row. rewrite <- map_map with (g := render_cell st) (f := fun v => cell v r).
+  (* fuel: a row has at most one more cell than characters *)
+  assert (Hlen : forall cells, cells <> [] ->
+             (List.length cells <= S (List.length (join_tab (map (render_cell st) cells))))%nat).
+  { induction cells as [|x [|y rest] IH]; intro H; [congruence|simpl; lia|].
+    change (map (render_cell st) (x :: y :: rest))
+      with (render_cell st x :: render_cell st y :: map (render_cell st) rest).
+    rewrite join_tab_cons.
+    change (render_cell st y :: map (render_cell st) rest) with (map (render_cell st) (y :: rest)).
+    rewrite app_length. cbn [List.length]. specialize (IH ltac:(discriminate)). cbn [List.length] in IH. lia. }
+  apply scan_row_render.
+  - apply Hlen. destruct vars; [congruence|discriminate].
+  - destruct vars; [congruence|discriminate].
+  - intros o Ho. apply in_map_iff in Ho. destruct Ho as [v [E Hv]]. subst o. auto.
+Qed.
+
+Lemma zip_row_ok : forall vars r, NoDup vars -> row_ok vars r (zip_row vars (map (fun v => cell v r) vars)) = true.
+Proof.
+  intros vars r Hnd. unfold row_ok. apply andb_true_iff. split.
+  - apply forallb_forall. intros v Hv. rewrite lookup_zip_row by auto.
+    apply memb_str_In in Hv. rewrite Hv. apply oterm_eqb_refl.
+  - apply forallb_forall. intros k Hk. apply memb_str_In. eapply keys_zip_row; eauto.
+Qed.
+
 (* ROW + zip on the rendering of a table row gives a dictionary that agrees with the row *)
 Theorem tsv_row_ok : forall st vars r,
   vars <> [] -> NoDup vars -> (forall v, In v vars -> cell_ok st (cell v r)) ->
@@ -306,24 +336,6 @@ Theorem tsv_row_ok : forall st vars r,
                 /\ row_ok vars r (zip_row vars cells) = true.
 Proof.
   intros st vars r Hne Hnd Hok. exists (map (fun v => cell v r) vars). split.
-  - unfold render_row. rewrite <- map_map with (g := render_cell st) (f := fun v => cell v r).
-    (* fuel: a row has at most one more cell than characters *)
-    assert (Hlen : forall cells, cells <> [] ->
-               (List.length cells <= S (List.length (join_tab (map (render_cell st) cells))))%nat).
-    { induction cells as [|x [|y rest] IH]; intro H; [congruence|simpl; lia|].
-      change (map (render_cell st) (x :: y :: rest))
-        with (render_cell st x :: render_cell st y :: map (render_cell st) rest).
-      rewrite join_tab_cons.
-      change (render_cell st y :: map (render_cell st) rest) with (map (render_cell st) (y :: rest)).
-      rewrite app_length. cbn [List.length]. specialize (IH ltac:(discriminate)). cbn [List.length] in IH. lia. }
-    apply scan_row_render.
-    + specialize (Hlen (map (fun v => cell v r) vars)).
-      assert (map (fun v => cell v r) vars <> []) by (destruct vars; [congruence|discriminate]).
-      specialize (Hlen H). lia.
-    + destruct vars; [congruence|discriminate].
-    + intros o Ho. apply in_map_iff in Ho. destruct Ho as [v [E Hv]]. subst o. auto.
-  - unfold row_ok. apply andb_true_iff. split.
-    + apply forallb_forall. intros v Hv. rewrite lookup_zip_row by auto.
-      apply memb_str_In in Hv. rewrite Hv. apply oterm_eqb_refl.
-    + apply forallb_forall. intros k Hk. apply memb_str_In. eapply keys_zip_row; eauto.
+  - apply tsv_row_scan; auto.
+  - apply zip_row_ok; auto.
 Qed.
